@@ -1902,6 +1902,19 @@ mod l2 {
         /// alterations injected AFTER the genuine message was accepted
         after: Vec<Alter>,
         seed: u32,
+        /// transport kind of the peer's address: 0 = UDP, 1 = TCP, 2 = BTP (the receive
+        /// checks are the same for every transport)
+        #[serde(default)]
+        transport: u8,
+    }
+
+    fn peer_addr(transport: u8) -> rs_matter::transport::network::Address {
+        use rs_matter::transport::network::{Address, BtAddr};
+        match (transport, alien_addr(0)) {
+            (1, Address::Udp(sock)) => Address::Tcp(sock),
+            (2, _) => Address::Btp(BtAddr([0x02, 0x11, 0x22, 0x33, 0x44, 0x55])),
+            (_, a) => a,
+        }
     }
 
     pub fn l2_case() -> impl Strategy<Value = L2Case> {
@@ -1924,14 +1937,16 @@ mod l2 {
             prop::collection::vec(alter(), 0..5),
             prop::collection::vec(prop_oneof![4 => alter(), 1 => Just(Alter::Replay)], 0..5),
             any::<u32>(),
+            prop_oneof![3 => Just(0u8), 1 => Just(1u8), 1 => Just(2u8)],
         )
-            .prop_map(|(pase, payload_len, reliable, before, after, seed)| L2Case {
+            .prop_map(|(pase, payload_len, reliable, before, after, seed, transport)| L2Case {
                 pase,
                 payload_len,
                 reliable,
                 before,
                 after,
                 seed,
+                transport,
             })
     }
 
@@ -2004,8 +2019,8 @@ mod l2 {
         let k2_in = [0x33u8; 16];
         let k2_out = [0x44u8; 16];
         // two sessions of the same peer address: the attacked one and a neighbour
-        if plant_half(&device, &cd, kind, dev_node, peer_node, 0x0A01, 0x0B01, alien_addr(0), &k_in, &k_out, 1, NocCatIds::default()).is_err()
-            || plant_half(&device, &cd, kind, dev_node, peer_node, 0x0A02, 0x0B02, alien_addr(0), &k2_in, &k2_out, 1, NocCatIds::default()).is_err()
+        if plant_half(&device, &cd, kind, dev_node, peer_node, 0x0A01, 0x0B01, peer_addr(case.transport), &k_in, &k_out, 1, NocCatIds::default()).is_err()
+            || plant_half(&device, &cd, kind, dev_node, peer_node, 0x0A02, 0x0B02, peer_addr(case.transport), &k2_in, &k2_out, 1, NocCatIds::default()).is_err()
         {
             return Case::inconclusive("planting failed");
         }
@@ -2074,7 +2089,7 @@ mod l2 {
                     }
                     let before: Vec<_> = sessions(&device).iter().map(essence).collect();
                     let got_before = received.borrow().len();
-                    net.inject(0, alien_addr(0), bytes.clone());
+                    net.inject(0, peer_addr(case.transport), bytes.clone());
                     if ex.run_for(20 * MS) == Stop::PollLimit {
                         *verdict = Some(Case::inconclusive("poll watchdog"));
                         return;
@@ -2109,7 +2124,7 @@ mod l2 {
             inject_all(&mut ex, &case.before, "before the genuine message", &mut verdict);
             if verdict.is_none() {
                 // the genuine message must be accepted
-                net.inject(0, alien_addr(0), genuine.clone());
+                net.inject(0, peer_addr(case.transport), genuine.clone());
                 ex.run_for(20 * MS);
                 if received.borrow().len() != 1 || received.borrow()[0] != body {
                     verdict = Some(Case::fail(
